@@ -1,6 +1,9 @@
 /-
   Driver for C06.
     herm …       solver-level histories on the symmetric family: answered by the C05 solver driver (same protocol, same model).
+    gen …        solver-level histories on the general family (GenEigsSolver / GenEigsRealShiftSolver, fresh / reused / second
+                 solver): answered by `Drv.C02.handle` (numeric instance `GenSolver.genKern`, the record of `gen_respects`),
+                 reached through `Drv.C05.handle`, which delegates `gen`.
     opshift <cls> <sigmar> <sigmai> <oldr> <oldi> { | I <napps> <throwAt|-1> }* { | C <nIter> <nProbe> <rs> <throwAt|-1> }*
                  operator-side events (`set_shift` / `perform_op`) of construct + the given public calls (`Model/OpShift.lean`):
                  cls 0 = real-shift classes, 1 = GenEigsComplexShiftSolver as the code is now.  The counts are the ones observed on
